@@ -1,10 +1,11 @@
 pub mod common;
 pub mod c01;
+pub mod c12;
 
 use crate::profile::Profile;
 
 pub fn all() -> Vec<&'static Profile> {
-    vec![&c01::PROFILE]
+    vec![&c01::PROFILE, &c12::PROFILE]
 }
 
 pub fn by_id(id: &str) -> Option<&'static Profile> {
